@@ -40,7 +40,7 @@ def run_cases(binary, cases, tag):
 def name(c):
     return "v%d/honest-%s/%s/%s/cred-%s/dev-%s%s%s" % (
         c["ver"], c["honest"], c["auth"], ("verify" if c["verifyChain"] else "skipverify") if c["honest"] == "c" else "policy%d" % c["policy"],
-        c["cred"], c["dev"], "/" + c["suite"] if c.get("suite") else "", "/rsa" if c.get("keyType") else "") + ("/name-" + c["nameKind"] if c.get("nameKind") else "")
+        c["cred"], c["dev"], "/" + c["suite"] if c.get("suite") else "", "/rsa" if c.get("keyType") else "") + ("/name-" + c["nameKind"] if c.get("nameKind") else "") + ("/cert+psk-server" if c.get("mixedPSK") else "")
 
 
 def facts(c):
@@ -48,6 +48,8 @@ def facts(c):
          "policy": c["policy"], "verifyChain": c["verifyChain"], "auth": c["auth"], "case": c}
     if c.get("nameKind"):
         f["nameKind"] = c["nameKind"]
+    if c.get("mixedPSK"):
+        f["mixedPSK"] = True
     return f
 
 
@@ -101,6 +103,11 @@ def run(chk):
         if c["honest"] == "c" and c["verifyChain"] and c["auth"] == "cert" and c["cred"] in ("good", "wrongName", "otherCA") and c["dev"] == "none":
             for nk in ("ip4", "ip6"):
                 extra.append(dict(c, nameKind=nk))
+    # a server that serves certificate clients and PSK clients at once: the client-authentication policy still binds the
+    # certificate handshakes
+    for c in cases:
+        if c["honest"] == "s" and c["auth"] == "cert" and c["ver"] == 12 and not c.get("suite"):
+            extra.append(dict(c, mixedPSK=True))
     # rsa rogue keys only make sense for the control and chain-level deviations
     allc = cases + [e for e in extra if not (e.get("keyType") == "rsa" and e["cred"] != "good")]
     binary = vlib.build("root")
